@@ -3,6 +3,7 @@
 # I'm still unsure whether this module has strong use cases.
 
 import asyncio
+import contextlib
 import functools
 import inspect
 import logging
@@ -586,11 +587,24 @@ class AsyncParmapperAsync(AsyncIterable):
         self._return_exceptions = return_exceptions
         self._preprocessor = preprocessor
         self._concurrency = concurrency or 128
+        self._max_ongoing = concurrency
         self._name = parmapper_name
 
     def __aiter__(self):
+        # An explicit ``concurrency`` is the max number of ongoing calls to ``func``; further calls wait
+        # here in submission order. By default only the look-ahead window limits the ongoing calls.
+        gate = (
+            asyncio.Semaphore(self._max_ongoing)
+            if self._max_ongoing
+            else contextlib.nullcontext()
+        )
+
+        async def _func(x, **kwargs):
+            async with gate:
+                return await self._func(x, **kwargs)
+
         async def func(x, loop, **kwargs):
-            return loop.create_task(self._func(x, **kwargs))
+            return loop.create_task(_func(x, **kwargs))
 
         return async_fifo_stream(
             self._instream,
